@@ -414,8 +414,8 @@ func (c *Canon) inlinable(fn *ssa.Function) bool {
 		case *ssa.Store, *ssa.MapUpdate, *ssa.Send, *ssa.Go, *ssa.Defer, *ssa.Panic, *ssa.RunDefers:
 			return false
 		case *ssa.DebugRef:
-		case ssa.Value:
-			// every computed value must feed the result: a call made only for its effect
+		case *ssa.Call:
+			// every call must feed the result: a call made only for its effect
 			// would disappear from the canonical form
 			used := false
 			if refs := x.Referrers(); refs != nil {
